@@ -109,6 +109,10 @@ def cases(draw, backend):
         if form == "explicit1":
             inner = head(cols[0][0])
             labels = names[0] if draw(st.booleans()) else [names[0]]
+            if draw(st.integers(0, 4)) == 0:
+                # a bare value is one column: any other number of labels is a mismatch
+                expect_error = True
+                labels = draw(st.sampled_from([[], [names[0], "extra"], [names[0], "extra", "more"]]))
         else:
             inner = head("(" + ", ".join(c[0] for c in cols) + ("," if ncols == 1 else "") + ")") if draw(st.booleans()) else head("[" + ", ".join(c[0] for c in cols) + "]")
             labels = list(names)
@@ -118,6 +122,8 @@ def cases(draw, backend):
                     labels = labels[:-1]
                 else:
                     labels = labels + ["extra"]
+        if isinstance(labels, list) and labels and draw(st.integers(0, 3)) == 0:
+            labels = tuple(labels)  # a tuple literal of names is as good as a list
         text = f"ResultTTree({inner}, {labels!r}, {tree!r}, {fn!r})"
         exp_names = names
     uses = g.uses or [(sch.colls[0].accessor, sch.colls[0].banks[0])]
